@@ -99,6 +99,12 @@ def cstring(s):
     return ('(' + ' ++ '.join(parts) + ')') if len(parts) > 1 else parts[0]
 
 
+def run_tag(prefix):
+    """Scratch-file prefix for the model side of one run: two runs of the same property (two seeds, quick and thorough) may
+    run at the same time in one tree without touching each other's files."""
+    return '%s_p%d' % (prefix, os.getpid())
+
+
 def jhash(x):
     return hashlib.sha256(json.dumps(x, sort_keys=True, default=str).encode()).hexdigest()[:16]
 
@@ -223,7 +229,12 @@ def audit(props_file):
     # Print Assumptions of the property theorems: recompile the Props file alone and read its output
     assumptions = []
     os.makedirs(os.path.join(COQ, 'cases', 'audit'), exist_ok=True)
-    p = subprocess.run(['coqc', '-R', '.', 'Fsic', '-w', '-notation-overridden,-inexact-float', '-o', 'cases/audit/%s.vo' % os.path.basename(props_file)[:-2], props_file], cwd=COQ, capture_output=True, text=True, timeout=900)
+    audit_dir = os.path.join('cases', 'audit', 'p%d' % os.getpid())      # coqc -o: same base name, another directory
+    os.makedirs(os.path.join(COQ, audit_dir), exist_ok=True)
+    audit_vo = os.path.join(audit_dir, os.path.basename(props_file)[:-2] + '.vo')
+    p = subprocess.run(['coqc', '-R', '.', 'Fsic', '-w', '-notation-overridden,-inexact-float', '-o', audit_vo, props_file], cwd=COQ, capture_output=True, text=True, timeout=900)
+    import shutil
+    shutil.rmtree(os.path.join(COQ, audit_dir), ignore_errors=True)
     out = p.stdout
     if p.returncode != 0:
         problems.append('%s does not compile: %s' % (props_file, (p.stderr or p.stdout)[-400:]))
